@@ -19,7 +19,7 @@ EXPLANATION = ("Bounded symbolic execution (CrossHair/z3) of the real credits mo
 NONTRIVIAL_RULE = "at least one credit-changing operation was executed and the ledger comparison ran"
 BOUNDS = {"quick": {"pricing_configs": "4 (+1 booted in free play)", "max_credits": "[0,6] symbolic", "history_len": 3, "wait_s": "[0,10800] real"},
           "thorough": {"pricing_configs": "4 (+1 booted in free play)", "max_credits": "[0,6] symbolic", "history_len": 5, "wait_s": "[0,10800] real"}}
-ASSUMPTIONS = ["a wait that ends exactly on an expiry deadline is assumed away",
+ASSUMPTIONS = ["a wait that ends exactly on an expiry deadline is assumed away", "tier progress restarts at every game start and once more per game when player 1's second ball starts (Credits._ball_starting; upstream rule: coins added during ball 1 still count towards the tier of the purchase that started the game); no free-play toggles in the partitions that end balls",
                "coin values are multiples of 1/4 (exact in binary floating point), three fixed pricing configurations",
                "max_credits: 0 means unlimited (as the code documents); balls are faked (playfield.add_ball stubbed)",
                "one configuration is booted in free play (free_play: yes) and then switched to credit play", "free-play mode: coins are not wired at all (handlers removed), so the ledger ignores coins while in free play; a game "
@@ -91,6 +91,7 @@ class Ledger:
         self.last_activity = None
         self.in_game = False
         self.frac_done = False
+        self.ball, self.cur, self.tier_reset_done = 0, 0, False
 
     def _cap(self, prev, new):
         if self.max_units > 0:
@@ -128,8 +129,8 @@ class Ledger:
 
     def start(self, max_players=3):
         """returns True if a player must be added"""
-        if self.in_game and self.players >= max_players:
-            return False
+        if self.in_game and (self.players >= max_players or self.ball > 1):
+            return False            # players join during ball 1 only (Game.request_player_add)
         if self.free:
             ok = True
         else:
@@ -140,6 +141,7 @@ class Ledger:
             self.players += 1
             if not self.in_game:
                 self.in_game = True
+                self.ball, self.cur, self.tier_reset_done = 1, 1, False
                 if not self.free:
                     # a game started in free play does not involve the credits mode at all: periods keep running
                     self.c = 0
@@ -160,6 +162,20 @@ class Ledger:
             self.units = 0
             self.c = 0
             self.last_activity = None
+
+    def end_ball(self, balls_per_game=3):
+        """the turn passes on; returns True when that was the last ball of the game. Tier progress restarts once more per game, when
+        player 1's second ball starts (coins dropped in during ball 1 still belong to the purchase that started the game)"""
+        if self.cur < self.players:
+            self.cur += 1
+        else:
+            self.cur, self.ball = 1, self.ball + 1
+        if self.ball > balls_per_game:
+            return True
+        if self.cur == 1 and self.ball == 2 and not self.free and not self.tier_reset_done:
+            self.c = 0
+            self.tier_reset_done = True
+        return False
 
     def end_game(self, now):
         if self.in_game:
@@ -187,7 +203,7 @@ def _hit(t, name):
     t.advance_time_and_run(0.01)
 
 
-OPS = ["coin_q", "coin_d", "service", "start", "end_game", "wait", "toggle", "award", "enable_credit", "enable_free", "double_start"]
+OPS = ["coin_q", "coin_d", "service", "start", "end_game", "end_ball", "wait", "toggle", "award", "enable_credit", "enable_free", "double_start"]
 
 
 def _apply(S, t, led, op, i):
@@ -236,6 +252,20 @@ def _apply(S, t, led, op, i):
         if added != want:
             raise Violation("start-accepted-iff-price-available", "_player_add_request", "two start presses in one loop iteration with %s unit(s) (price %s): %d player(s) added, the balance pays for %d" % (
                 _units(t) if False else led.units + want * led.upg, led.upg, added, want))
+    elif op == "end_ball":
+        if m.game:
+            ended_at = [None]
+            key = m.events.add_handler("mode_game_stopped", lambda **kwargs: ended_at.__setitem__(0, t.loop.time()), priority=10**6)
+            m.game.end_ball()
+            t.advance_time_and_run(0.5)
+            m.events.remove_handler_by_key(key)
+            over = led.end_ball()
+            if over != (m.game is None):
+                raise Violation("harness", "end_ball", "ledger says game over %s, machine game %s (ball %s player %s)" % (over, m.game, led.ball, led.cur))
+            if over:
+                led.end_game(ended_at[0])
+            elif (m.game.player.number, m.game.player.ball) != (led.cur, led.ball):
+                raise Violation("harness", "end_ball", "ledger at player %s ball %s, machine at player %s ball %s" % (led.cur, led.ball, m.game.player.number, m.game.player.ball))
     elif op == "end_game":
         ended_at = [t.loop.time()]
         if m.game:
@@ -295,6 +325,8 @@ def body_history(S, t, part):
         _apply(S, t, led, op, i)
         changed = changed or led.units != before
     _audits(t, led)
+    if part.get("tier_progress") and not led.free and _mode(t).credit_units_for_pricing_tiers % led.wrap != led.c:
+        raise Violation("tier-progress", "_reset_pricing_tier_credits", "tier progress %s, ledger %s after %s" % (_mode(t).credit_units_for_pricing_tiers, led.c, ops))
     S.note("nontrivial", changed)
     S.note("final_units", led.units)
 
@@ -333,11 +365,18 @@ def scenarios(tier):
                  dict(cfg="a", prefix=["coin_d", "enable_free", "enable_free", "enable_credit"], n=6, alphabet=["coin_q", "start", "award"]),
                  dict(cfg="b", prefix=["coin_d", "start", "coin_d", "double_start"], n=5, alphabet=["double_start", "start", "coin_q"]),
                  dict(cfg="a", prefix=["coin_q", "double_start"], n=4, alphabet=["double_start", "start", "coin_q"]),
-                 dict(cfg="d", prefix=["coin_q"], n=3, alphabet=alpha), dict(cfg="d", prefix=["coin_d"], n=3, alphabet=alpha)]
+                 dict(cfg="d", prefix=["coin_q"], n=3, alphabet=alpha), dict(cfg="d", prefix=["coin_d"], n=3, alphabet=alpha),
+                 # tier progress across games: it restarts at a game start and once more when player 1's second ball starts
+                 dict(cfg="a", prefix=["coin_d", "start", "end_ball", "end_game", "coin_d", "start"], n=8, alphabet=["coin_d", "coin_q", "end_ball"], tier_progress=True),
+                 dict(cfg="c", prefix=["coin_d", "start", "coin_d", "start", "end_ball"], n=9, alphabet=["coin_d", "coin_q", "end_ball", "start"], tier_progress=True),
+                 dict(cfg="a", prefix=["service", "start"], n=7, alphabet=["coin_d", "end_ball", "end_game", "start"], tier_progress=True)]
     else:
         alpha = ["coin_q", "coin_d", "service", "start", "end_game", "wait", "toggle", "award", "enable_credit", "enable_free", "double_start"]
         hist = [dict(cfg=c, prefix=[p, q], n=4, alphabet=alpha) for c in "abc" for p in ("coin_d", "coin_q", "service")
                 for q in ("coin_d", "coin_q", "start", "wait")]
         hist += [dict(cfg="b", boot_free=True, prefix=[p], n=4, alphabet=alpha) for p in ("toggle", "enable_credit", "start")]
+        balls = ["coin_d", "coin_q", "end_ball", "end_game", "start", "service"]
+        hist += [dict(cfg=c, prefix=["coin_d", "start"] + q, n=len(q) + 7, alphabet=balls, tier_progress=True) for c in "ac"
+                 for q in ([], ["end_ball"], ["coin_d", "start", "end_ball"], ["end_ball", "end_game", "coin_d", "start"])]
     return [Scenario("step", setup, body_step, step_parts, teardown=teardown, part_budget=80 if tier == "quick" else 200, per_path_timeout=30),
             Scenario("history", setup, body_history, hist, teardown=teardown, part_budget=80 if tier == "quick" else 400, per_path_timeout=30)]
